@@ -355,7 +355,7 @@ def goals_to_tasks(check, base, low, f, S, goals, view, label):
 
 def run(check):
     tier = check.tier
-    types = ['double'] if tier == 'quick' else ['double', 'float', 'long double']
+    types = ['double', 'float', 'long double']
     check.checker_cmd = 'clang++ -ast-dump=json | phqv lower | phqv symex -> z3 -T:60 (check-sat-using (then simplify solve-eqs qfnra-nlsat)); goto-cc | goto-instrument --dfcc | cbmc --cvc5'
     check.assume('REAL mode: IEEE arithmetic of the tensor kernels treated as exact real arithmetic (identities hold for all reals; rounding is bounded separately by the rounding count)')
     check.assume('libm sqrt: contract r >= 0 and r*r == x (correct rounding assumed)')
